@@ -32,6 +32,84 @@ RICH = (
     "tests/filecheck/dialects/riscv/riscv_ops.mlir", "tests/filecheck/dialects/stencil/stencil_ops.mlir",
     "tests/filecheck/dialects/cf/canonicalize.mlir", "tests/filecheck/dialects/memref/canonicalize.mlir",
 )
+# hand-written shapes that no corpus file contains (each x every registered pass with default options)
+SHAPES = {
+    "forward-ref-in-func": '''func.func @f() {
+  "test.op"(%v, %w) : (i32, i32) -> ()
+  %v = "test.pureop"(%w) : (i32) -> i32
+  %w = "test.pureop"() : () -> i32
+  func.return
+}''',
+    "use-cycle-in-nested-module": '''builtin.module {
+  %a = "test.pureop"(%b) : (i32) -> i32
+  %b = "test.pureop"(%a) : (i32) -> i32
+  "test.op"(%c) : (i32) -> ()
+  %c = "test.pureop"(%c) : (i32) -> i32
+}''',
+    "unregistered-branch": '''"test.op"() ({
+  %0 = "test.op"() : () -> i32
+  "d.br"(%0) [^bb1, ^bb2] : (i32) -> ()
+^bb1:
+  "test.op"(%0) : (i32) -> ()
+  "d.br"() [^bb2] : () -> ()
+^bb2:
+  "test.op_with_memwrite"() : () -> ()
+  "test.termop"() : () -> ()
+}) : () -> ()''',
+    "cond-br-same-successor": '''func.func @f(%c: i1, %a: i32, %b: i32) -> i32 {
+  cf.cond_br %c, ^m(%a : i32), ^m(%b : i32)
+^m(%r: i32):
+  func.return %r : i32
+}''',
+    "branch-to-entry-block": '''"test.op"() ({
+  %0 = "test.op"() : () -> i1
+  "test.termop"() [^bb1] : () -> ()
+^bb1:
+  "test.termop"() [^bb0x, ^bb1] : () -> ()
+^bb0x:
+  "test.termop"() : () -> ()
+}) : () -> ()''',
+    "for-single-iteration-yields-block-args": '''func.func @f(%x: index) -> (index, index) {
+  %c0 = arith.constant 0 : index
+  %c1 = arith.constant 1 : index
+  %r:2 = scf.for %i = %c0 to %c1 step %c1 iter_args(%a = %x, %b = %c0) -> (index, index) {
+    scf.yield %i, %a : index, index
+  }
+  func.return %r#0, %r#1 : index, index
+}''',
+    "if-same-expression-in-both-branches": '''func.func @f(%c: i1, %x: i32) -> i32 {
+  %r = scf.if %c -> (i32) {
+    %t = arith.addi %x, %x : i32
+    scf.yield %t : i32
+  } else {
+    %e = arith.addi %x, %x : i32
+    scf.yield %e : i32
+  }
+  func.return %r : i32
+}''',
+    "unreachable-blocks-and-dead-cycle": '''func.func @f(%x: i32) -> i32 {
+  cf.br ^exit(%x : i32)
+^dead1(%d: i32):
+  %u = arith.addi %d, %x : i32
+  cf.br ^dead2(%u : i32)
+^dead2(%e: i32):
+  cf.br ^dead1(%e : i32)
+^exit(%r: i32):
+  func.return %r : i32
+}''',
+    "op-uses-own-result": '''builtin.module {
+  %s = "test.op"(%s) : (i32) -> i32
+  %p = "test.pureop"(%p, %s) : (i32, i32) -> i32
+}''',
+    "empty-regions-and-declarations": '''builtin.module {
+  func.func private @ext(i32) -> i32
+  "test.op"() ({
+  }) : () -> ()
+  builtin.module {
+  }
+}''',
+}
+
 RUNP = re.compile(r"""-p\s+("[^"]*"|'[^']*'|\S+)""")
 
 
@@ -157,7 +235,7 @@ def run_batch(batch) -> Stats:
     sys.stdout = sys.stderr = devnull
     try:
         for (rel, ci, kind, spec) in items:
-            text = corpus.chunks_of(rel)[ci]
+            text = SHAPES[rel[len("<shape:"):-1]] if rel.startswith("<shape:") else corpus.chunks_of(rel)[ci]
             m = corpus.parse(text, rel)
             if m is None:
                 continue
@@ -225,6 +303,9 @@ def cases(quick: bool):
             if (rel in RICH and size <= 10000) or (not quick and size <= 3000):
                 for name in allp:
                     out.append((rel, ci, "default", name))
+    for name in SHAPES:
+        for pname in allp:
+            out.append((f"<shape:{name}>", 0, "shape", pname))
     return out
 
 
